@@ -1,5 +1,6 @@
 import OccaModel.Hash
 import OccaModel.CacheKey
+import OccaModel.CacheKeyExact
 import OccaModel.DepHash
 import OccaModel.Proto
 /-
@@ -18,34 +19,12 @@ json dump model (OccaModel/CacheKey.lean).
 -/
 open Occa Occa.Hash Occa.Proto Occa.CacheKey Occa.DepHash
 
-def bytesOf (s : String) : List Nat := s.toUTF8.toList.map (·.toNat)
-def strOfCodes (cs : List Int) : String := String.ofList (cs.map fun c => Char.ofNat c.toNat)
 def strOfBytes (bs : List Nat) : String := String.ofList (bs.map Char.ofNat)
 def unhexStr (s : String) : Option String := (unhex s).map strOfBytes
 def hexStr (s : String) : String := hex (bytesOf s)
 
-/-- the files named by `#include "…"` lines (the generated headers use exactly this form, with
-    absolute paths) -/
-def scanIncludes (text : String) : List String :=
-  (text.splitOn "\n").filterMap fun line =>
-    let cs := line.toList
-    let pre := "#include \"".toList
-    if pre.isPrefixOf cs then some (String.ofList ((cs.drop pre.length).takeWhile (· ≠ '"'))) else none
-
-def fullStr (K : Lanes) : String := strOfCodes (fullString K)
-def shortStr (K : Lanes) : String := strOfCodes ((fullString K).take 16)
-
-def exactEnv (mode : String) (dev : Lanes) : DEnv Lanes String String where
-  H s := hashBytes (bytesOf s)
-  enc := dump
-  raw := id
-  full K := .str (fullStr K)
-  short K := .str (shortStr K)
-  tweak K := if mode = "openmp" then Hash.xor K (hashBytes (bytesOf Gen.openmpSalt)) else K
-  dev := dev
-  dir K := shortStr K
-  incl := scanIncludes
-  depth := 100000
+def exactDEnv (mode : String) (dev : Lanes) : DEnv Lanes String String :=
+  { exactEnv (mode == "openmp") dev with dir := shortStr, incl := scanIncludes, depth := 100000 }
 
 partial def parseVal : List String → Option (J × List String)
   | "N" :: r => some (.null, r)
@@ -102,7 +81,7 @@ structure DS where
   files : List (String × String) := []
   cache : Cache Lanes String Bin := []
 
-def DS.env (s : DS) : DEnv Lanes String String := exactEnv s.mode s.dev
+def DS.env (s : DS) : DEnv Lanes String String := exactDEnv s.mode s.dev
 def DS.fs (s : DS) : FS := fun p => s.files.lookup p
 
 def showBin (e : DEnv Lanes String String) (x : Bin) : String :=
